@@ -146,6 +146,29 @@ def crafted_instances():
     out.append(('efficiency_sweep', {'elems': [motor, {'kind': 'SpurGear', 'J': F(1, 10**6), 'teeth': 10, 'rel': {'type': 'joint', 'arg': None}},
                                                 {'kind': 'SpurGear', 'J': F(1, 10**5), 'teeth': 30, 'rel': {'type': 'gear', 'arg': F(4, 5)}}],
                                      'load': ld(c0=F(1, 1000)), 'ctrls': [], 'stops': [], 'ops': sweep}))
+    # duty cycle assigned by the USER before the run (no control object): exactly 0 at rest with a load of either sign, a
+    # negative one, a fraction inside the dead zone; then a fresh Solver continuing the chain held at duty cycle 0
+    for nm, pw, c0 in (('user_pwm0_rest_pos', F(0), F(1, 5)), ('user_pwm0_rest_neg', F(0), F(-1, 5)), ('user_pwm_neg_rest', F(-1), F(1, 5)),
+                       ('user_pwm_deadzone', F(1, 50), F(1, 5)), ('user_pwm0_rest_small', F(0), F(1, 10**5))):
+        for chn, tag in ((sl, ''), ([motor, worm, wheel_free, out_gear], '_free')):
+            ops = [{'op': 'set_initial', 'pos': F(18), 'spd': F(0)}, {'op': 'set_pwm', 'v': pw}, {'op': 'new_solver', 'sid': 1},
+                   {'op': 'run', 'sid': 1, 'dt': dt, 'T': dt * 5, 'dt_unit': 'sec', 'T_unit': 'sec'},
+                   {'op': 'new_solver', 'sid': 2}, {'op': 'run', 'sid': 2, 'dt': dt, 'T': dt * 4, 'dt_unit': 'sec', 'T_unit': 'sec'},
+                   {'op': 'reset'}, {'op': 'set_initial', 'pos': F(18), 'spd': F(0)}, {'op': 'set_pwm', 'v': pw},
+                   {'op': 'run', 'sid': 2, 'dt': dt, 'T': dt * 3, 'dt_unit': 'sec', 'T_unit': 'sec'}]
+            out.append((nm + tag, {'elems': chn, 'load': ld(c0=c0), 'ctrls': [], 'stops': [], 'ops': ops}))
+    # a long coarse run continued with a step that is tiny against the elapsed time (minutes, then milliseconds), and a run of
+    # very many small steps is what the random campaign never draws: every instant must still be on the time axis
+    heavy = dict(motor, J=F(1))
+    big = {'kind': 'SpurGear', 'J': F(2), 'teeth': 20, 'rel': {'type': 'joint', 'arg': None}}
+    out.append(('coarse_then_fine', {'elems': [heavy, big], 'load': ld(c0=F(1, 1000)), 'ctrls': [], 'stops': [], 'ops': [
+        {'op': 'set_initial', 'pos': F(0), 'spd': F(0)}, {'op': 'new_solver', 'sid': 1},
+        {'op': 'run', 'sid': 1, 'dt': F(60), 'T': F(60) * 30, 'dt_unit': 'min', 'T_unit': 'min'},
+        {'op': 'run', 'sid': 1, 'dt': F(1, 100), 'T': F(1, 100) * 20, 'dt_unit': 'ms', 'T_unit': 'ms'},
+        {'op': 'run', 'sid': 1, 'dt': F(1, 10**6), 'T': F(5, 10**6), 'dt_unit': 'sec', 'T_unit': 'ms'}]}))
+    out.append(('nanosecond_steps', {'elems': [heavy, big], 'load': ld(c0=F(1, 1000)), 'ctrls': [], 'stops': [], 'ops': [
+        {'op': 'set_initial', 'pos': F(0), 'spd': F(0)}, {'op': 'new_solver', 'sid': 1},
+        {'op': 'run', 'sid': 1, 'dt': F(1, 10**9), 'T': F(12, 10**9), 'dt_unit': 'ms', 'T_unit': 'sec'}]}))
     # the same loads on the non-self-locking stage and on a motor without current data: never clamped
     out.append(('free_overload', {'elems': [motor, worm, wheel_free, out_gear], 'load': ld(c0=5), 'ctrls': [[const(F(5, 200), 1, 0)]], 'stops': [], 'ops': sched(8, spd0=-3, ctrl=0)}))
     out.append(('nocurrent_locked', {'elems': [motor_nc, worm, wheel], 'load': ld(c0=5), 'ctrls': [[const(F(3, 200), F(3, 100), 0)]], 'stops': [], 'ops': sched(10, ctrl=0)}))
